@@ -84,8 +84,9 @@ def predicate(case, ref, out):
 
 
 def check(case):
-    limit = 60
-    with time_limit(limit, "scheduler call with failing task", sched=case["sched"]["kind"]):
+    # blocking hang detection needs wall-clock time; 300 s for <= 12 trivial tasks is
+    # two orders of magnitude above the cost even on a loaded machine
+    with time_limit(300, "scheduler call with failing task", wall=True, sched=case["sched"]["kind"]):
         sc.for_each_schedule(case, predicate)
 
 
